@@ -191,7 +191,7 @@ Definition r_step (d : dtype) (st : rstate) (o : rop) : rstate * rout :=
     match r_cbd st with
     | None => (st, ROErr InvalidArgument)
     | Some c =>
-      if c_body c * 8 <? nd_bproc (c_nd c) then (st, ROPanic) else
+      if c_body c * 8 <? nd_bproc (c_nd c) then (st, ROErr Corruption) else
       let target := r_bit st + (c_body c * 8 - nd_bproc (c_nd c)) in
       if target <=? total_bits st
       then (mkR (r_bytes st) target (r_flags st) None (r_term st), ROUnit)
